@@ -218,3 +218,37 @@ Theorem C04_model_blank_page_step fuel root H lh ltr i resume np right :
   pcons (SBlank, []) (paginate_loop fuel root H lh ltr (S i) resume np (negb right)).
 Proof. exact (PS.paginate_loop_blank_step fuel root H lh ltr i resume np right). Qed.
 Print Assumptions C04_model_blank_page_step.
+
+(* ---- orphans and widows, about the source.  _break_line of weasyprint/layout/block.py REGENERATED from the source
+   on every run (gen/GenBreakLine.v), whole: when the page is not empty (page_is_empty = False), for every list `ncs`
+   of lines already placed, every list `rest` of lines still to come, every orphans and every widows >= 1, the body
+   either cancels the box (abort = True: no line of the paragraph stays, nothing is removed from new_children) or
+   breaks inside the paragraph (abort = False, stop = True) leaving in new_children at least `orphans` of the placed
+   lines (a prefix of them) and, for the next page, at least `widows` lines (those given back, the line that
+   overflowed and the lines still to come).  remove_placeholders is any function; BLS.dict1 k v is the display {k: v} *)
+Require WV.gen.GenBreakLine WV.proofs.C03_gen_break_line.
+Module BLS := WV.proofs.C03_gen_break_line.
+
+Theorem C04_source_break_line_orphans_widows
+        (T : Type) (kids_of : T -> list val) (extra : T -> list (string * val)) rp1 rp2 rp3
+        (O : qops) (HO : ops_ok O)
+        (HR : forall cx l ab fb,
+            ocall O "remove_placeholders"%string [VObj cx; VList l; VList ab; VList fb] =
+            VList [VNone; VObj (rp1 cx l ab fb); VList (rp2 cx l ab fb); VList (rp3 cx l ab fb)])
+        (HD : forall k v, ocall O "%dict1"%string [k; v] = BLS.dict1 k v)
+        st sx bx lc lx rest ix sk ra cx (ncs : list T) ab fb :
+  BLS.not_err sk -> 1 <= s_widows st ->
+  run O GenBreakLine.break_line_body (BLS.bl_env T kids_of extra st sx bx lc lx rest false ix sk ra cx ncs ab fb)
+    (fun rho r =>
+       exists abort stop resume kept,
+         r = Some (VList [VBool abort; VBool stop; resume]) /\
+         lookup "new_children"%string rho = VList (map (BLS.vline T kids_of extra) kept) /\
+         (abort = true -> stop = false /\ kept = ncs) /\
+         (abort = false -> stop = true /\ (exists drop, kept = removelast_n drop ncs) /\
+            s_orphans st <= List.length kept /\
+            s_widows st <= List.length ncs + 1 + List.length rest - List.length kept))
+    (fun _ => False).
+Proof.
+  exact (BLS.gen_break_line_orphans_widows T kids_of extra rp1 rp2 rp3 O HO HR HD st sx bx lc lx rest ix sk ra cx ncs ab fb).
+Qed.
+Print Assumptions C04_source_break_line_orphans_widows.
